@@ -142,6 +142,122 @@ fn compare(o: &Obs, t: &str, ty: &str, m: &PartsModel, what: &str) -> Result<(),
     Ok(())
 }
 
+#[derive(Clone, Debug, Serialize, Deserialize)]
+pub struct RebuildCase {
+    pub tuple: Tuple,
+    pub choices: Vec<u8>,
+    pub first: ShapeSpec,
+    pub second: ShapeSpec,
+}
+
+/// A PURL that was already built once (parsed with one hook) is turned into a builder, given a type
+/// with another hook, and built again: the hook runs once, the generic checks run after it.
+fn o_rebuild(c: &RebuildCase, st: &mut Stats) -> Result<(), String> {
+    if !c.tuple.in_domain() {
+        return Err("bad replay case: tuple outside the domain".into());
+    }
+    let sp = spell(&c.tuple, &c.choices);
+    let s = sp.assemble();
+    use_spec(&c.first);
+    let first = guard(|| GenericPurl::<TestShape>::from_str(&s)).map_err(|m| format!("parsing {s:?} panicked: {m}"))?;
+    let _ = take_log();
+    let Ok(p) = first else {
+        st.class("first-build-refused");
+        return Ok(());
+    };
+    let o1 = observe(&p);
+    use_spec(&c.second);
+    let shape = TestShape::new(&sp.ty, &c.second);
+    let second = guard(move || p.into_builder().with_package_type(shape).build()).map_err(|m| format!("re-building panicked: {m}"))?;
+    let log = take_log();
+    let (n_from, n_fin) = counts(&log);
+    if n_from != 0 || n_fin != 1 {
+        return Err(format!("re-building called from_str {n_from} times and finish {n_fin} times"));
+    }
+    let base = PartsModel {
+        ns: o1.ns.clone().unwrap_or_default(),
+        name: o1.name.clone(),
+        version: o1.version.clone().unwrap_or_default(),
+        subpath: o1.subpath.clone().unwrap_or_default(),
+        quals: o1.quals.iter().cloned().collect(),
+    };
+    match (apply_model(&c.second, base), &second) {
+        (HookExpect::Ok(m), Ok(q)) => {
+            let o = observe(q);
+            let t = text(q).map_err(|m| format!("to_string() panicked: {m}"))?;
+            compare(&o, &t, &sp.ty, &m, &format!("re-built from {s:?} (first hook {:?}) with hook {:?}", c.first.hook, c.second.hook))?;
+            st.class("rebuild-ok");
+        },
+        (HookExpect::Err(reasons), Err(e)) => {
+            let k = shape_err_kind(e);
+            if !reasons.contains(&k) {
+                return Err(format!("re-building {s:?} with hook {:?} failed with {k}; applicable: {reasons:?}", c.second.hook));
+            }
+            st.class("rebuild-refused-by-post-hook-check");
+        },
+        (e, r) => {
+            return Err(format!(
+                "re-building the PURL parsed from {s:?} with hook {:?}: expected {e:?}, got {:?}",
+                c.second.hook,
+                r.as_ref().map(observe).map_err(shape_err_kind)
+            ))
+        },
+    }
+    if is_edit_acted_on(&c.second) {
+        st.nontrivial(&(&c.first, &c.second, s.as_str()), || json!({ "input": s, "first": c.first, "second": c.second }));
+    }
+    Ok(())
+}
+
+#[derive(Clone, Debug, Serialize, Deserialize)]
+pub struct NewCase {
+    pub ty: String,
+    pub name: String,
+    pub spec: ShapeSpec,
+}
+
+/// `GenericPurl::new(type, name)` is a third entry point: same protocol, same post-hook checks.
+fn o_new(c: &NewCase, st: &mut Stats) -> Result<(), String> {
+    let ty = if is_valid_type(&c.ty) { c.ty.clone() } else { "x.y".to_string() };
+    use_spec(&c.spec);
+    let shape = TestShape::new(&ty, &c.spec);
+    let name = c.name.clone();
+    let r = guard(move || GenericPurl::new(shape, name.as_str())).map_err(|m| format!("GenericPurl::new panicked: {m}"))?;
+    let log = take_log();
+    let (n_from, n_fin) = counts(&log);
+    if n_from != 0 || n_fin != 1 {
+        return Err(format!("GenericPurl::new called from_str {n_from} times and finish {n_fin} times"));
+    }
+    let base = PartsModel { ns: String::new(), name: c.name.clone(), version: String::new(), subpath: String::new(), quals: Default::default() };
+    match (apply_model(&c.spec, base), &r) {
+        (HookExpect::Ok(m), Ok(q)) => {
+            let o = observe(q);
+            let t = text(q).map_err(|m| format!("to_string() panicked: {m}"))?;
+            compare(&o, &t, &ty, &m, &format!("GenericPurl::new({ty:?}, {:?}) with hook {:?}", c.name, c.spec.hook))?;
+            st.class("new-ok");
+        },
+        (HookExpect::Err(reasons), Err(e)) => {
+            let k = shape_err_kind(e);
+            if !reasons.contains(&k) {
+                return Err(format!("GenericPurl::new with hook {:?} failed with {k}; applicable: {reasons:?}", c.spec.hook));
+            }
+            st.class("new-refused");
+        },
+        (e, r) => {
+            return Err(format!(
+                "GenericPurl::new({ty:?}, {:?}) with hook {:?}: expected {e:?}, got {:?}",
+                c.name,
+                c.spec.hook,
+                r.as_ref().map(observe).map_err(shape_err_kind)
+            ))
+        },
+    }
+    if is_edit_acted_on(&c.spec) {
+        st.nontrivial(&(&c.spec, &c.name, "new"), || json!(c));
+    }
+    Ok(())
+}
+
 fn is_edit_acted_on(spec: &ShapeSpec) -> bool {
     spec.conv_fail.is_some()
         || spec.hook.iter().any(|a| {
@@ -150,6 +266,7 @@ fn is_edit_acted_on(spec: &ShapeSpec) -> bool {
                 crate::shape::Action::Fail(_)
                     | crate::shape::Action::ClearName
                     | crate::shape::Action::InsertChecksum(..)
+                    | crate::shape::Action::IndexSet(..)
                     | crate::shape::Action::SetName(_)
             ) || matches!(a, crate::shape::Action::InsertQualifier(_, v) if v.is_empty())
         })
@@ -345,6 +462,28 @@ pub fn sections() -> Vec<Box<dyn Section>> {
             oracle: o_build,
             required: vec!["call-err", "hook-ok", "post-hook-check-refuses"],
         }),
+        Box::new(Random {
+            name: "rebuild-with-another-hook".into(),
+            quick: 100_000,
+            thorough: 3_000_000,
+            strategy: Box::new(|_| {
+                (gtuple(false), gchoices(), gspec(), gspec())
+                    .prop_map(|(tuple, choices, first, second)| RebuildCase { tuple, choices, first, second })
+                    .boxed()
+            }),
+            oracle: o_rebuild,
+            required: vec!["first-build-refused", "rebuild-ok", "rebuild-refused-by-post-hook-check"],
+        }),
+        Box::new(Random {
+            name: "new-entry-point".into(),
+            quick: 60_000,
+            thorough: 2_000_000,
+            strategy: Box::new(|_| {
+                (crate::chars::gtype(), crate::buildprog::garg(), gspec()).prop_map(|(ty, name, spec)| NewCase { ty, name, spec }).boxed()
+            }),
+            oracle: o_new,
+            required: vec!["new-ok", "new-refused"],
+        }),
     ]
 }
 
@@ -355,8 +494,9 @@ pub fn prop() -> Prop {
         rule: "Members of a parameterised family of PurlShape + FromStr implementations (conversion succeeds or fails with a \
                code; hook = list of actions: fail with a code, clear / set / lower-case the name, rewrite namespace, \
                version, subpath, insert empty / valid / invalid-key qualifiers, insert well-formed non-canonical or \
-               malformed checksums, remove or clear qualifiers) applied to valid spellings, single-fault spellings and \
-               builder programs. Oracles: call protocol from a log kept by the test shape (conversion at most once, only \
+               malformed checksums, remove or clear qualifiers, overwrite a qualifier in place through IndexMut) \
+               applied to valid spellings, single-fault spellings, builder programs, GenericPurl::new, and to PURLs that \
+               were already built once and are re-built with another hook. Oracles: call protocol from a log kept by the test shape (conversion at most once, only \
                with a valid type substring exactly as written; finish exactly once per build(), never before a \
                successful conversion; errors returned unchanged) and a model: base parts, then the hook's actions, then \
                the generic post-checks (name non-empty, empty values dropped, checksum canonical or InvalidQualifier); \
